@@ -1222,6 +1222,11 @@ class Run(object):
                          sig=sig)
             return
         debug_on = bool(g.config.get('debug'))
+        if debug_on and ev.get('icls') == 'wrongkind' and not (o['k'] == 'exc' and o['fam'] == 'config'):
+            # input validation happens before grading starts, whatever the debug option says
+            self.violate('I-family', i, cls, 'input of the wrong kind was not refused with a configuration error '
+                         '(debug on); input=%r -> %s' % (ev['input'], short(o, 300)),
+                         sig='I-family|%s|wrong kind not refused (debug)' % cls)
         if debug_on:
             return
         attempt_faulty = bool(g.config.get('attempt_based_credit')) and getattr(
